@@ -14,3 +14,8 @@ pub mod stubs {
         String::new()
     }
 }
+
+/// ColorPaletteEntry has private fields; palette.rs's overlay exposes a constructor for sibling overlays.
+pub fn mk_entry(id: u32, rgba: [u8; 4]) -> crate::palette::ColorPaletteEntry {
+    crate::palette::verif_overlay::mk_entry(id, rgba)
+}
